@@ -32,6 +32,23 @@ CHECKS = {
              "Unrolling bounds: If branches 5/8, list items 2/4, parameters "
              "2/3, loop nesting per def 2/3 (uniform beyond).",
         ref="DESIGN.md §3 C02"),
+    "C03": dict(
+        technique="path-sensitive token-kind refinement over parse.py "
+                  "(abstract interpretation in the kind-set domain) against "
+                  "the lexer's per-kind value languages; structural lexer "
+                  "payload-flow rules",
+        category="other",
+        text="Decides the grouping clause for the parser as architected: "
+             "every read of a token's .value in parse.py (and the arity "
+             "lookup in transpile.lambda_wrap) is annotated with the set of "
+             "token kinds that can reach it on any path; a read that decides "
+             "grouping (comparison with / lookup in syntax constants, "
+             "modifier key, lambda arity) must only see kinds whose value "
+             "language (derived from the lexer) cannot spell the constant. "
+             "Lexer side: consumed payload is never re-queued, scan loops of "
+             "free-text literals stop only at their own delimiter, the "
+             "backslash arm keeps escaped delimiters in the payload.",
+        ref="DESIGN.md §3 C03"),
     "C12": dict(
         technique="stack-height (typestate) analysis over the structured CFG "
                   "of every extracted template x hole state, and of python "
